@@ -237,6 +237,8 @@ def generate(rng: random.Random, tier: str) -> dict:
             s = rng.choice(crs_slots + val_slots)
             steps.append(["drop", s])
             (crs_slots if s in crs_slots else val_slots).remove(s)
+        elif r < 0.855 and (crs_slots or val_slots):
+            steps.append(["use", rng.choice(val_slots + val_slots + crs_slots)])  # read-only use; may fill lazily cached state
         elif r < 0.875 and crs_slots:
             steps.append(["epsg", rng.choice(crs_slots)])  # read-only accessor; fills a lazily computed field
         elif r < 0.90:
@@ -515,6 +517,7 @@ class History:
             "pairs_checked": 0,
             "flood_constructions": 0,
             "racing_transformer_requests": 0,
+            "values_used_then_rechecked": 0,
         }
         self.steps_done = 0
         self.switches = 0
@@ -596,6 +599,7 @@ class History:
                 self.report("O19.4", f"{kind}-pickle-raises:{sig}", what)
             raise
         s_v, s_c = self.crs_str_of(e), self.crs_str_of({"kind": kind, "value": clone})
+        e["clone"] = clone
         if not (clone == v and v == clone):
             self.report("O19.4", f"{kind}-unpickled-clone-not-equal", what, (s_v, s_c))
         if tokenize(clone) != tok:
@@ -650,6 +654,50 @@ class History:
         for x, y in itertools.combinations(same, 2):
             if (x["value"] == y["value"]) and ((y["value"] == v) != (x["value"] == v)):
                 self.report("O19.1", f"{kind}-eq-not-transitive", {"kind": kind, "a": x.get("spec"), "b": y.get("spec"), "c": e.get("spec")})
+
+    def use_value(self, e: Dict[str, Any]) -> None:
+        """Read-only use of a value (accessors, lookups, derived objects), then: its token and
+        hash are what they were, it still equals the clone taken when it was created, and it
+        can still be pickled and copied.  Accessor failures are not this property's business."""
+        from dask.base import tokenize
+
+        v, kind = e["value"], e["kind"]
+        uses = {
+            "crs": [lambda: v.geographic, lambda: v.units, lambda: v.dimensions, lambda: v.authority, lambda: v.valid_region, lambda: v.to_wkt()],
+            "bbox": [lambda: v.span_x, lambda: v.points, lambda: v.polygon, lambda: v.buffered(1.0)],
+            "geom": [lambda: v.is_valid, lambda: v.area, lambda: v.boundingbox, lambda: v.centroid, lambda: v.json, lambda: v.wkt],
+            "geobox": [lambda: v.extent, lambda: v.boundingbox, lambda: v.resolution, lambda: v.coordinates, lambda: v.footprint("EPSG:4326"), lambda: v[1:3, 1:2], lambda: v.geographic_extent],
+            "gcp": [lambda: v.extent, lambda: v.approx, lambda: v.pix2wld(1.0, 1.0), lambda: v.wld2pix(150.0, 440.0), lambda: v.resolution, lambda: v.gcps()],
+            "gbtiles": [lambda: v[0, 0], lambda: v.chunks, lambda: v.base.extent, lambda: list(v.tiles(v.base.extent)), lambda: v.shape],
+            "gridspec": [lambda: v[1, 2], lambda: v.tile_geobox((0, 0)), lambda: v.tile_geobox((-1, 3)).extent, lambda: list(v.tiles(v[0, 0].boundingbox)), lambda: v.dimensions],
+            "tiles": [lambda: v[0, 0], lambda: v.shape, lambda: v.chunks, lambda: v.base],
+            "vtiles": [lambda: v[0, 0], lambda: v.shape, lambda: v.chunks, lambda: v.base],
+        }.get(kind, [lambda: v.x, lambda: v.y, lambda: v.xy, lambda: tuple(v.xy)])
+        for f in uses:
+            try:
+                f()
+            except Exception:  # pylint: disable=broad-except
+                pass
+        self.probes["values_used_then_rechecked"] += 1
+        what = {"kind": kind, "spec": e.get("spec"), "after": "read-only use"}
+        if tokenize(v) != e["token"]:
+            self.report("O19.3", f"{kind}-token-changes-with-use", what)
+        if e.get("hashable") and hash(v) != e["hash"]:
+            self.report("O19.2", f"{kind}-hash-changes-with-use", what)
+        c0 = e.get("clone")
+        if c0 is not None and not (v == c0 and c0 == v):
+            self.report("O19.4", f"{kind}-not-equal-to-earlier-clone-after-use", what)
+        try:
+            c1 = pickle.loads(pickle.dumps(v))
+            c2 = copy.deepcopy(v) if kind != "crs" else type(v)(v)
+        except Exception as ex:  # pylint: disable=broad-except
+            kind_, sig = classify_exception(ex)
+            self.report("O19.4", f"{kind}-cannot-be-pickled-or-copied-after-use", {**what, "exception": f"{type(ex).__name__}: {str(ex)[:120]}", "where": sig if kind_ == "repo" else "pickle"})
+            return
+        if not (c1 == v and v == c1 and c2 == v):
+            self.report("O19.4", f"{kind}-unpickled-clone-not-equal-after-use", what)
+        if tokenize(c1) != e["token"] or tokenize(c2) != e["token"]:
+            self.report("O19.3", f"{kind}-clone-token-differs-after-use", what)
 
     def recheck_crs_pool(self, e: Dict[str, Any]) -> None:
         """After an accessor that may fill lazily computed state: the laws must still hold
@@ -771,6 +819,10 @@ class History:
                     if other is not None and other["kind"] == "crs":
                         self.check_transform(e, other, bool(step[3]), quiet=True)
                 self.ch.count("churn", len(step[1]))
+            elif op == "use":
+                e = self.pool.get(step[1])
+                if e is not None:
+                    self.use_value(e)
             elif op == "epsg":
                 e = self.pool.get(step[1])
                 if e is not None and e["kind"] == "crs":
@@ -973,6 +1025,10 @@ def ensure_refs(record: dict) -> None:
 
 
 def _history_child(record: dict, rng_state: Any):
+    try:  # LAPACK writes warnings straight to fd 2 (polynomial fits of GCP mappings); errors travel through the pipe
+        os.dup2(os.open(os.devnull, os.O_WRONLY), 2)
+    except OSError:
+        pass
     rng = None
     if rng_state is not None:
         rng = random.Random()
@@ -1066,10 +1122,10 @@ def _drop_step(steps: List[List[Any]], i: int) -> Optional[List[List[Any]]]:
         if j == i:
             continue
         s = copy.deepcopy(s)
-        if s[0] in ("copy", "pickle", "drop", "epsg"):
+        if s[0] in ("copy", "pickle", "drop", "epsg", "use"):
             s[1] = ren(s[1])
             if s[1] == -1:
-                if s[0] in ("drop", "epsg"):
+                if s[0] in ("drop", "epsg", "use"):
                     continue
                 return None
         elif s[0] == "transform":
